@@ -1510,16 +1510,6 @@ Proof.
 Qed.
 End NAMES.
 
-Print Assumptions cmd_at_cmds.
-Print Assumptions program_commands_hoisted.
-Print Assumptions inline_text_label.
-Print Assumptions inline_moves_label.
-Print Assumptions program_inline_arguments.
-Print Assumptions program_command_sites.
-Print Assumptions inline_text_argument_defined.
-Print Assumptions inline_moves_argument_defined.
-Print Assumptions inline_arguments_share_labels.
-Print Assumptions inline_argument_names.
 
 (* ====================================================================================================== *)
 (*  8. THE THEOREMS ON SOURCE TEXTS (real compilation): any source text, any classification of non-ASCII    *)
@@ -1611,11 +1601,6 @@ Theorem compiled_inline_argument_names p :
          nth_error (cargs c) k = Some (mov_label (imScript fo) (owned (imScript fo) (map imScript A)))).
 Proof. apply inline_argument_names. apply ProgSrc.parse_format_advs. Qed.
 End SOURCE.
-Print Assumptions compiled_commands_are_patched_commands.
-Print Assumptions compiled_inline_text_argument.
-Print Assumptions compiled_inline_moves_argument.
-Print Assumptions compiled_inline_arguments_share_labels.
-Print Assumptions compiled_inline_argument_names.
 
 (* ====================================================================================================== *)
 (*  9. Examples: the hypotheses are satisfiable; what the model does in the corner cases; a counterexample   *)
@@ -1667,6 +1652,4 @@ Example label_defined_twice_in_output :
     filter (is_label (t "S_Text_0")) out = [ILabel (t "S_Text_0") true; ILabel (t "S_Text_0") false].
 Proof. split; [vm_compute; reflexivity|]. eexists. split; vm_compute; reflexivity. Qed.
 End Examples.
-Print Assumptions Examples.ex_commands.
-Print Assumptions Examples.label_defined_twice_in_output.
 
